@@ -40,7 +40,7 @@ CLS = 'SuperSpeedStreamInEndpoint'
 I = 'self.interface.'
 HIN, HOUT = I + 'handshakes_in.', I + 'handshakes_out.'
 ACK, RETRY, EPRESET, DONE = HIN + 'ack_received', HIN + 'retry_required', I + 'ep_reset', HOUT + 'done'
-TXR, TXV = I + 'tx.ready', 'any(self.interface.tx.valid)'
+TXR, TXZ = I + 'tx.ready', '0 == self.interface.tx.valid'      # TXZ: no byte of tx.valid set (`~tx.valid.any()`)
 MASK = {0: 0b1111, 1: 0b0001, 2: 0b0011, 3: 0b0111}
 
 
@@ -709,8 +709,8 @@ def check_endpoint(ctx, cfg, col):
         ce = q.const_eq(e) if e is not None else None
         if ce and ce[1] == Xc + '[0:2]':
             casef[ce[0]] = c
-    ctx.need(un - set(casef.values()) <= {LWc, TXR, TXV}, 'conditions of the send state are tx.ready, any(tx.valid), the last-word test '
-             'and the count mod 4: %s' % sorted(un - set(casef.values()) - {LWc, TXR, TXV}))
+    ctx.need(un - set(casef.values()) <= {LWc, TXR, TXZ}, 'conditions of the send state are tx.ready, any(tx.valid), the last-word test '
+             'and the count mod 4: %s' % sorted(un - set(casef.values()) - {LWc, TXR, TXZ}))
     cex = None
     counts = sorted(set(range(1, min(mps, 40) + 1)) | set(range(max(1, mps - 9), mps + 1)))
     for cnt in counts:
@@ -726,7 +726,7 @@ def check_endpoint(ctx, cfg, col):
                LWc, cex[2] if cex else None, cex[0] if cex else None, cex[1] if cex else None))
     exp = {}
     for asg in M.enum(S_send):
-        go = (asg.get(TXR, False) or not asg.get(TXV, True))
+        go = (asg.get(TXR, False) or asg.get(TXZ, False))
         exp_dst = S_ack if (go and asg.get(LWc)) else None
         if M.next_state(S_send, asg) != exp_dst:
             exp.setdefault((M.next_state(S_send, asg), exp_dst), asg)
@@ -736,7 +736,7 @@ def check_endpoint(ctx, cfg, col):
     vdrv = [a for a in M.items(S_send) if a.domain != 'comb' and a.lhs.canon() == I + 'tx.valid']
     if set(casef) == {0, 1, 2, 3}:
         for r in range(4):
-            asg = {TXR: True, TXV: True, LWc: True}
+            asg = {TXR: True, TXZ: False, LWc: True}
             for k_, c in casef.items():
                 asg[c] = (k_ == r)
             f = sorted(M.fires(vdrv, asg), key=lambda a: a.order)
@@ -745,14 +745,14 @@ def check_endpoint(ctx, cfg, col):
                    'the last word of a packet with count mod 4 = %d has byte-valid mask %s, found %s' % (r, bin(MASK[r]), got))
     else:
         ctx.need(False, 'byte-valid mask of the last word selected by count[0:2] cases 0..3 (found %s)' % sorted(casef))
-    asg = {TXR: True, TXV: True, LWc: False}
+    asg = {TXR: True, TXZ: False, LWc: False}
     for c in casef.values():
         asg[c] = False
     f = sorted(M.fires(vdrv, asg), key=lambda a: a.order)
     got = f[-1].rhs.val if f and f[-1].rhs.op == 'const' else None
     OB('C46.byte-valid', K('tx.valid.inner-word'), got == 0b1111, f[-1].loc if f else fsm.state_loc[S_send],
            'every word before the last one is fully valid, found %s' % got)
-    stall = {TXR: False, TXV: True, LWc: True}
+    stall = {TXR: False, TXZ: False, LWc: True}
     f = [a for a in M.fires(M.items(S_send), stall) if a.guard]
     OB('C46.respect-ready', K('send.stall'), not f, f[0].loc if f else fsm.state_loc[S_send],
            'while the transmitter is not ready for the pending word nothing may advance: %s' % [q.fmt(a) for a in f])
